@@ -202,6 +202,7 @@ func (s *server) onWebSocket(ctx *types.HttpContext, wsc *types.WebSocketConn) {
 			server_log.Debug("upgrading not existing transport")
 			wsc.Close()
 		} else {
+			transport.SetMaxHttpBufferSize(s.Opts().MaxHttpBufferSize())
 			transport.SetPerMessageDeflate(s.Opts().PerMessageDeflate())
 			client.MaybeUpgrade(transport)
 		}
